@@ -12,6 +12,10 @@ CHECKS = {
     text="Differential symbolic execution of the library codec against ref/wabinary.py (independent encoder with explicit choice vector + decoder, frozen dictionary copy): every dictionary index both ways; ref_decode(lib_encode(t)) == t on the C01 families; lib_decode(ref_encode(t, choices)) == t for list16 / 20- and 31-bit length / literal / unpacked / no-JID / string-valued content choices; deflate checked with real zlib on every path witness.",
     note="Trusted: the reference implementation and its frozen dictionary copy (extracted once from the pinned commit; no network), engine models, z3. zlib is not encoded (concrete on witnesses).",
     technique="differential symbolic execution (library vs independent reference) with z3, concrete replay of every model"),
+ "C06": dict(cat="model_checking", design="4/C06",
+    text="Every incoming stanza kind of the catalogue (fixtures + templates, fields unconstrained z3 strings/integers) is injected below the really assembled layer set; exactly one entity must reach the top and serialise back to the stanza, or nothing when the owning optional module is off; an unconstrained-tag/type/xmlns stanza is never delivered twice. Every sendable entity kind (built with symbolic fields) is sent from the top; exactly one equal stanza must leave at the bottom, messages as exactly one encrypted envelope without plaintext child. Module selections all/none/single-off (quick), all 16 x with/without encryption layers (thorough).",
+    note="Trusted: engine string model, ideal manager stub, template catalogue with realistic discriminators. iq replies are C08's subject, envelope contents C03's.",
+    technique="symbolic execution of the assembled protocol + encryption layers with z3 string variables; concrete replay of every model"),
  "C07": dict(cat="model_checking", design="4/C07",
     text="One incoming stanza with solver-variable fields (id, from, participant, notify, t as unconstrained strings/integers; notification type unconstrained or each documented kind with its documented body; call kinds; ping id; concrete protobuf payloads of every unsupported kind, unknown mediatype as unconstrained string) is injected below the really assembled layer set (3 encryption layers with an ideal manager stub + all protocol layers of the selected modules). z3 decides on every path: exactly one ack/receipt/pong with equal id, class, type, to and participant.",
     note="Trusted: engine string model, manager stub (only reached by encrypt notifications). One stanza per run; module selections all/none/single-off (quick), all 16 with and without encryption layers (thorough).",
